@@ -14,7 +14,7 @@ use regex::Regex;
 use serde::de::{DeserializeSeed, Error as SerdeError, MapAccess, Visitor};
 use serde::{Deserialize, Deserializer};
 use serde_json::Value;
-use uriparse::URI;
+use uriparse::URIReference;
 
 use crate::ocfl::bimap::PathBiMap;
 use crate::ocfl::digest::HexDigest;
@@ -175,7 +175,7 @@ impl<'de> Deserialize<'de> for OptionWrapper<Inventory> {
                                 match map.next_value::<JsonStr>() {
                                     Ok(value) => {
                                         let value: &str = &value;
-                                        if URI::try_from(value).is_err() {
+                                        if !is_uri(value) {
                                             self.result.warn(
                                                 WarnCode::W005,
                                                 format!(
@@ -1211,7 +1211,7 @@ impl<'de, 'a, 'b> DeserializeSeed<'de> for UserSeed<'a, 'b> {
                                 match map.next_value::<JsonStr>() {
                                     Ok(value) => {
                                         let value: &str = &value;
-                                        if URI::try_from(value).is_err() {
+                                        if !is_uri(value) {
                                             self.result.warn(WarnCode::W009,
                                                               format!("Inventory version {} user 'address' should be a URI. Found: {}",
                                                                       self.version, value));
@@ -1531,6 +1531,15 @@ where
                 break;
             }
         }
+    }
+}
+
+/// `URI::try_from` panics on some malformed input, such as a scheme that starts with a digit,
+/// because not all of the errors of the underlying reference parser can be converted
+fn is_uri(value: &str) -> bool {
+    match URIReference::try_from(value) {
+        Ok(reference) => !reference.is_relative_reference(),
+        Err(_) => false,
     }
 }
 
